@@ -13,6 +13,7 @@ package vsched
 
 import (
 	"fmt"
+	"reflect"
 	"runtime"
 	"runtime/debug"
 	"sort"
@@ -580,6 +581,61 @@ func SleepQuiescent(d time.Duration) {
 	tm := AddTimer(d, "harness-sleep", func() { woken = true })
 	tm.late = true
 	Point(&Op{Kind: "sleep", Enabled: func() bool { return woken }})
+}
+
+// MapKeys returns the keys of m in a canonical order, so that rewritten `range` loops over
+// maps are deterministic: ordered key kinds are sorted; keys that implement VerifOrder()
+// are sorted by it; other keys come in Go's (random) order.
+func MapKeys[K comparable, V any](m map[K]V) []K {
+	keys := make([]K, 0, len(m))
+	for k := range m {
+		keys = append(keys, k)
+	}
+	if len(keys) < 2 {
+		return keys
+	}
+	rank := func(k K) (int64, string, bool) {
+		switch v := any(k).(type) {
+		case string:
+			return 0, v, true
+		case int:
+			return int64(v), "", true
+		case int32:
+			return int64(v), "", true
+		case int64:
+			return v, "", true
+		case uint32:
+			return int64(v), "", true
+		case uint64:
+			return int64(v >> 1), fmt.Sprint(v & 1), true
+		case interface{ VerifOrder() int }:
+			return int64(v.VerifOrder()), "", true
+		case fmt.Stringer:
+			return 0, v.String(), true
+		}
+		rv := reflect.ValueOf(k)
+		switch rv.Kind() {
+		case reflect.String:
+			return 0, rv.String(), true
+		case reflect.Int, reflect.Int8, reflect.Int16, reflect.Int32, reflect.Int64:
+			return rv.Int(), "", true
+		case reflect.Uint, reflect.Uint8, reflect.Uint16, reflect.Uint32, reflect.Uint64:
+			return int64(rv.Uint()), "", true
+		}
+		return 0, "", false
+	}
+	if _, _, ok := rank(keys[0]); !ok {
+		return keys
+	}
+	sort.SliceStable(keys, func(i, j int) bool {
+		a, as, _ := rank(keys[i])
+		b, bs, _ := rank(keys[j])
+		if a != b {
+			return a < b
+		}
+		return as < bs
+	})
+	return keys
 }
 
 // ---- summary helpers
